@@ -108,9 +108,11 @@ D1, D2, D3 = (1, 1, 1), (2, 1, 1), (3, 3, 3)
 INST_MENUS = {
     'IF': _inst_menu((0, 1, 50, 100), (D1, D2, D3)),        # 24, full
     'ID': _inst_menu((0, 1, 100), (D1, D2, D3)),            # 18
+    'IE': _inst_menu((0, 1, 100), (D1, D2)),                # 12
     'IM': _inst_menu((0, 1, 100), (D1, D3)),                # 12
     'IS': _inst_menu((0, 1, 100), (D2,)),                   # 6
     'IT': _inst_menu((0, 50), (D2,)),                       # 4
+    'I3': [(0, D2, 1), (50, D2, 0), (50, D2, 1)],
     'I2': [(0, D2, 1), (50, D2, 0)],     # running priority 0 / pending 50
 }
 
@@ -154,11 +156,11 @@ SLICES = {
         (2, 2, 'NS', 'IF', 1),
         (2, 3, 'NS', 'IS', 3),
         (3, 2, 'NS', 'IS', 1),
-        (3, 3, 'N3', 'IT', 3),
+        (3, 3, 'N3', 'I3', 3),
     ],
     'thorough': [
         (1, 3, 'NF', 'IF', 1),
-        (1, 4, 'N1', 'ID', 4),
+        (1, 4, 'N1', 'IE', 4),
         (2, 2, 'NM', 'IF', 1),
         (2, 2, 'NF', 'IS', 1),
         (2, 3, 'NS', 'IM', 3),
@@ -167,7 +169,7 @@ SLICES = {
         (3, 2, 'NS', 'ID', 1),
         (3, 3, 'NS', 'IS', 3),
         (3, 4, 'N3', 'I2', 4),
-        (4, 2, 'NS', 'IS', 1),
+        (4, 2, 'NS', 'IT', 1),
         (4, 3, 'N3', 'I2', 3),
         (4, 4, 'N2', 'I2', 4),
     ],
